@@ -281,7 +281,7 @@ def r5(cx, run):
                   "%s and %s differ (neither identical bodies nor a delegation)" % (mir.norm(a), mir.norm(b)), mir.loc_of(u.bodies[a]))
     # codec None => no audio: `audio(AudioCodec::None, ..)` builds the same muxer as no audio call at all (the builder is tabulated)
     from . import c04
-    c04.builder_audio_table(cx.prog, run, "R5")
+    c04.builder_audio_table(cx.prog, run, "R5", none_only=True)
 
 
 def _reaches_only(cx, callee, chain, dst):
